@@ -55,6 +55,7 @@ MODEL_CLASSES = {c[0] for c in ENV_IMPORT['classes']}
 # Which handle semantics of the memory file system the Lean model is asked to mirror: 'shared'
 # (the tree as it is: all handles of a file share one position, F130) or 'perhandle'
 # (fixes/C05-F130.patch applied).
+# 'perhandle-append': with fixes/C05-F374.patch ('a' handles write at the current end of the file).
 HANDLE_MODEL = os.environ.get('C05_HANDLE_MODEL', 'perhandle')   # mirrors /repo since fix b23b24a (F130)
 
 TUPLE_MARKER = '__tuple__'
@@ -180,6 +181,12 @@ def plain_of_tree(t):
 
 
 def json_text_of_tree(t):
+  if tree_has(t, lambda x: isinstance(x, dict) and 'o' in x):
+    # Records that are objects: the text is what the codec layer writes (its own cases and theorems
+    # cover it); the store layer is about where that text goes.
+    PROP.setup_impl()
+    im = C05._impl
+    return im.pg.to_json_str(im.build(t))
   return json.dumps(plain_of_tree(t))
 
 
@@ -406,8 +413,8 @@ def gen_paths(rng, n):
   return paths or ['/mem/a']
 
 
-def gen_store_case(rng, rich_records=False):
-  tg = TreeGen(rng, floats=False, objects=False)
+def gen_store_case(rng, rich_records=False, objects=False):
+  tg = TreeGen(rng, floats=False, objects=objects)
   paths = gen_paths(rng, rng.randint(1, 6))
   seq_paths = [p for p in paths if rng.chance(0.4)]
   ops = []
@@ -547,12 +554,62 @@ def gen_nest(rng, depth, top=True):
   return rng.choice([{'t': [1]}, {'t': []}, {'t': ['s', 1]}, {'t': [None, 1]}, {'l': [{'t': [1]}]}])
 
 
+MOUNTS = ('/mem', '/scratch')      # two mounts of the in-memory file system (the second registered by the harness)
+
+FAMILIES = {'FAMILY': 3, 'SHIFTED': 3}   # harness/c05_classes.py: functions sharing ONE code object, different defaults
+FNFAM_HOW = ['one-value', 'one-value-str', 'consecutive', 'written-then-loaded', 'files', 'jsonl']
+
+
+def gen_mounts_case(rng):
+  """A store history spread over two mounts: the SAME mount-relative paths are used on both."""
+  case = gen_store_case(rng)
+  ops = []
+  for op in case['ops']:
+    op = dict(op, mt=rng.below(2))
+    ops.append(op)
+    if op['k'] in ('save', 'jw', 'seqw', 'write') and rng.chance(0.5):
+      # the twin path on the other mount is looked at right after a write
+      other = 1 - op['mt']
+      ops.append({'k': rng.choice(['load', 'exists', 'listdir']) if op['k'] == 'save' else
+                  rng.choice(['jr', 'exists']) if op['k'] == 'jw' else rng.choice(['seqr', 'exists']),
+                  'p': op['p'], 'mt': other})
+      if ops[-1]['k'] == 'listdir':
+        ops[-1]['p'] = os.path.dirname(op['p']) + '/'
+  return {'kind': 'mounts', 'ops': ops}
+
+
+def fnfam_ok(members):
+  """Self-contained: some code object occurs with two different defaults."""
+  return any(len({i for f, i in members if f == fam}) >= 2 for fam in FAMILIES)
+
+
+def gen_fnfam_case(rng):
+  fam = rng.choice(sorted(FAMILIES))
+  i = rng.below(FAMILIES[fam])
+  j = (i + 1 + rng.below(FAMILIES[fam] - 1)) % FAMILIES[fam]
+  members = [[fam, i], [fam, j]]
+  for _ in range(rng.below(4)):
+    f = rng.choice(sorted(FAMILIES))
+    members.insert(rng.below(len(members) + 1), [f, rng.below(FAMILIES[f])])
+  return {'kind': 'fnfam', 'members': members, 'how': rng.choice(FNFAM_HOW)}
+
+
 SEQ_PATHS = {
     'mem': ['/mem/sq/a.mem', '/mem/sq/b.mem'],
     'memN': ['/mem/sq/a.mem@3', '/mem/sq/a.mem@4'],
     'line': ['/mem/sq/a.jsonl', '/mem/sq/deep/b.jsonl'],
     'std': ['a.jsonl', 'sub/b.jsonl'],
 }
+
+
+def interleave(a, b):
+  out = []
+  for i in range(max(len(a), len(b))):
+    if i < len(a):
+      out.append(a[i])
+    if i < len(b):
+      out.append(b[i])
+  return out
 
 
 def gen_seq_case(rng):
@@ -569,9 +626,14 @@ def gen_seq_case(rng):
   ops, reads, started = [], 0, set()
   for _ in range(rng.randint(3, 10)):
     p = rng.below(2)
-    k = rng.weighted([(4, 'add'), (4, 'read'), (3 if reads else 0, 'mutate'), (2, 'read2')])
+    k = rng.weighted([(4, 'add'), (4, 'read'), (3 if reads else 0, 'mutate'), (2, 'read2'), (2, 'add2')])
     if p not in started:
       k = 'add'
+    if k == 'add2':
+      # two appenders open at the same time, adding in turn
+      ops.append({'k': 'add2', 'p': p, 'v1': [record() for _ in range(rng.randint(1, 2))],
+                  'v2': [record() for _ in range(rng.randint(1, 2))]})
+      continue
     if k == 'add':
       m = 'w' if p not in started or rng.chance(0.2) else 'a'
       started.add(p)
@@ -679,6 +741,8 @@ def lower_ops(ops):
       out.append({'k': 'seqr', 'p': op['p']})
     else:
       out.append(op)
+    if 'mt' in op:
+      out[-1] = dict(out[-1], mt=op['mt'])
   return out
 
 
@@ -843,6 +907,10 @@ class _Impl:
     self.classes = dict(self.classes, N=c05_classes.N)
     self.cls_of_key = {c.__type_name__: c for c in self.classes.values()}
     self.mod = c05_classes
+    # A second in-memory mount, as any user may register one: its own tree, the same mount-relative paths.
+    self.mounts = {'/mem': pg_io.file_system._fs.get('/mem/x')}   # pylint: disable=protected-access
+    self.mounts['/scratch'] = pg_io.file_system.MemoryFileSystem('/scratch/')
+    pg_io.file_system.add_file_system('/scratch/', self.mounts['/scratch'])
     from harness import typing_vocab as tv
     tv._CLS = c05_classes.VOCAB      # module-level twins: nameable in JSON   # pylint: disable=protected-access
     self.tv = tv
@@ -1093,7 +1161,8 @@ class _Impl:
       b = Q(a=pg.Dict(u=case['expr'], v=[1, 3]), n=None, b=True)
       return pg.diff(a, b)
     if what == 'functor':
-      return pg.Dict(f=self.mod.vocab_functor(case['expr']), g=self.mod.vocab_functor(1, y=[case['expr'], (1, 'a')]))
+      # every argument bound by the caller (an argument left at its default is not "bound": callable cases, F378)
+      return pg.Dict(f=self.mod.vocab_functor(case['expr'], 1), g=self.mod.vocab_functor(1, y=[case['expr'], (1, 'a')]))
     raise AssertionError(what)
 
   def kind_of(self, spec):
@@ -1259,17 +1328,21 @@ class _Impl:
     return {'model': {'rt': res}}
 
   def reset_mem(self):
-    fs = self.pg_io.file_system._fs.get('/mem/x')   # pylint: disable=protected-access
-    fs._root.clear()   # pylint: disable=protected-access
+    for fs in self.mounts.values():
+      fs._root.clear()   # pylint: disable=protected-access
 
   def run_ops(self, ops, root):
-    """Runs a history; `root` is '/mem' or a temp dir standing in for it."""
+    """Runs a history; `root` is '/mem' or a temp dir standing in for it (or one root per mount:
+    an operation with 'mt': i addresses the same mount-relative path under roots[i])."""
     pg, pg_io = self.pg, self.pg_io
     outs = []
     handles = []
 
-    def mp(p):
-      return root + p[len('/mem'):]
+    def mp(op):
+      r = root[op.get('mt', 0)] if isinstance(root, list) else root
+      if r == '':       # relative to the working directory: '/mem/name' is the bare file name 'name'
+        return op['p'][len('/mem'):].lstrip('/') or '.'
+      return r + op['p'][len('/mem'):]
 
     for op in ops:
       k = op['k']
@@ -1292,7 +1365,7 @@ class _Impl:
         except Exception as e:   # pylint: disable=broad-except
           outs.append({'err': type(e).__name__})
         continue
-      p = mp(op['p'])
+      p = mp(op)
       if k == 'hopen':
         try:
           handles.append(pg_io.open(p, op['m']))
@@ -1367,10 +1440,100 @@ class _Impl:
     out = {'model': {'outs': model}, 'outs': outs}
     if not case.get('messy') and case['kind'] == 'store':
       with self.tempfile.TemporaryDirectory(prefix='c05-') as tmp:
-        std = self.run_ops(case['ops'], tmp)
+        if case.get('rel'):       # the same history with paths relative to the working directory
+          cwd = os.getcwd()
+          os.chdir(tmp)
+          try:
+            std = self.run_ops(case['ops'], '')
+          finally:
+            os.chdir(cwd)
+        else:
+          std = self.run_ops(case['ops'], tmp)
       out['std'] = [sorted(o['n']) if isinstance(o, dict) and 'n' in o else o for o in std]
     self.reset_mem()
     return out
+
+  def mounts_case(self, case):
+    self.reset_mem()
+    outs = self.run_ops(case['ops'], list(MOUNTS))
+    model = []
+    for o in outs:
+      if isinstance(o, dict) and 'v' in o and 'r' in o:
+        model.append({'r': o['r']})
+      elif isinstance(o, dict) and 'v' in o:
+        model.append({'c': o['c']})
+      else:
+        model.append(o)
+    out = {'model': {'outs': model}, 'outs': outs}
+    with self.tempfile.TemporaryDirectory(prefix='c05-') as tmp:
+      roots = [os.path.join(tmp, 'A'), os.path.join(tmp, 'B')]
+      for r in roots:
+        os.mkdir(r)
+      std = self.run_ops(case['ops'], roots)
+    out['std'] = [sorted(o['n']) if isinstance(o, dict) and 'n' in o else o for o in std]
+    self.reset_mem()
+    return out
+
+  # -- several functions made from ONE code object (different defaults) --------------------------
+  FAM_PROBES = (0, 1, 7)
+
+  def fnfam_case(self, case):
+    pg = self.pg
+    fns = [getattr(self.mod, fam)[i] for fam, i in case['members']]
+    want = [[f(x) for x in self.FAM_PROBES] for f in fns]
+    how = case['how']
+    base = '/mem/c05_fnfam/'
+    self.reset_mem()
+
+    def one_value():
+      return list(pg.from_json(pg.to_json(pg.Dict(fs=list(fns)))).fs)
+
+    def one_value_str():
+      return list(pg.from_json_str(pg.to_json_str(pg.List(list(fns)))))
+
+    def consecutive():
+      return [pg.from_json(pg.to_json(f)) for f in fns]
+
+    def written_then_loaded():
+      js = [pg.to_json_str(f) for f in fns]
+      return [pg.from_json_str(j) for j in js]
+
+    def files():
+      for n, f in enumerate(fns):
+        pg.save(pg.Dict(f=f), base + 'v%d.json' % n)
+      return [pg.load(base + 'v%d.json' % n).f for n in range(len(fns))]
+
+    def jsonl():
+      with pg.open_jsonl(base + 'fns.jsonl', 'w') as w:
+        for f in fns:
+          w.add(pg.Dict(f=f))
+      with pg.open_jsonl(base + 'fns.jsonl', 'r') as r:
+        return [x.f for x in r]
+
+    run = {'one-value': one_value, 'one-value-str': one_value_str, 'consecutive': consecutive,
+           'written-then-loaded': written_then_loaded, 'files': files, 'jsonl': jsonl}[how]
+    res = self.attempt(run)
+    self.reset_mem()
+    if 'err' in res:
+      return {'problems': ['raises %s' % res['err']], 'model': None}
+    got = res['ok']
+    problems = []
+    if len(got) != len(fns):
+      problems.append('%d functions written, %d loaded' % (len(fns), len(got)))
+    for n, (g, w) in enumerate(zip(got, want)):
+      b = self.attempt(lambda: [g(x) for x in self.FAM_PROBES])
+      if b != {'ok': w}:
+        problems.append('function %d (%s[%d]) answers %s to the probe calls %s, the one written answers %s' % (
+            n, case['members'][n][0], case['members'][n][1], json.dumps(b)[:80], list(self.FAM_PROBES), w))
+    # What the model is asked: the JSON of every function (code payload, defaults) and what the loads gave.
+    codes, fnjs = {}, []
+    for f in fns:
+      j = pg.to_json(f)
+      if not (isinstance(j, dict) and 'code' in j):
+        return {'problems': problems, 'model': None}
+      fnjs.append({'code': codes.setdefault(j['code'], len(codes)), 'defaults': list(f.__defaults__ or ())})
+    return {'problems': problems, 'fnjs': fnjs,
+            'model': {'loaded': [list(getattr(g, '__defaults__', None) or ()) for g in got]}}
 
   # -- value specs (state = what the public properties show) -----------------------------------
   def opt_tree(self, v):
@@ -1647,6 +1810,16 @@ class _Impl:
               for v in op['v']:
                 f.add(self.build(v))
             outs.append(None)
+          elif op['k'] == 'add2':
+            a, b = pg.open_jsonl(paths[op['p']], 'a'), pg.open_jsonl(paths[op['p']], 'a')
+            for i in range(max(len(op['v1']), len(op['v2']))):
+              if i < len(op['v1']):
+                a.add(self.build(op['v1'][i]))
+              if i < len(op['v2']):
+                b.add(self.build(op['v2'][i]))
+            b.close()
+            a.close()
+            outs.append(None)
           elif op['k'] == 'mutate':
             recs = held[op['r']]
             if op['i'] < len(recs):
@@ -1654,21 +1827,26 @@ class _Impl:
             outs.append(None)
           else:
             path = paths[op['p']]
-            if op['k'] == 'read2':
-              g1, g2 = pg.open_jsonl(path, 'r'), pg.open_jsonl(path, 'r')
-              first = list(iter(g1))
-              for x in first:
-                self.mutate_in_place(x)
-              recs = list(iter(g2))
-              g1.close()
-              g2.close()
-            else:
-              with pg.open_jsonl(path, 'r') as f:
-                recs = list(iter(f))
-            held.append(recs)
             with pg_io.open_sequence(path, 'r') as f:
               raw = list(iter(f))
-            outs.append({'r': raw, 'v': [self.to_wire(x) for x in recs]})
+
+            def read_values():
+              if op['k'] == 'read2':
+                g1, g2 = pg.open_jsonl(path, 'r'), pg.open_jsonl(path, 'r')
+                try:
+                  first = list(iter(g1))
+                  for x in first:
+                    self.mutate_in_place(x)
+                  return list(iter(g2))
+                finally:
+                  g1.close()
+                  g2.close()
+              with pg.open_jsonl(path, 'r') as f:
+                return list(iter(f))
+            res = self.attempt(read_values)
+            recs = res.get('ok', [])
+            held.append(recs)
+            outs.append({'r': raw, 'v': [self.to_wire(x) for x in recs] if 'ok' in res else res})
         except Exception as e:   # pylint: disable=broad-except
           if op['k'] in ('read', 'read2'):
             held.append([])
@@ -1701,6 +1879,9 @@ class _Impl:
       return r[1] if isinstance(r, list) else r
 
     def behave(g):
+      if origin.startswith('functor'):     # which arguments are bound decides what a call accepts
+        return [self.attempt(lambda: g()), self.attempt(lambda: g(y=3)), self.attempt(lambda: g(x=5)),
+                self.attempt(lambda: sorted(g.specified_args))]
       return self.attempt(lambda: g('abc') if g is len or getattr(g, '__name__', '') == 'len' else g(3))
 
     j = self.attempt(lambda: pg.to_json(v))
@@ -1712,6 +1893,9 @@ class _Impl:
       node = node[1] if isinstance(node, list) else node
       if org in self.PLAIN_FN:
         model[org] = isinstance(node, dict) and 'code' in node
+    if origin == 'inherited-classmethod':
+      back = self.attempt(lambda: pick(pg.from_json(pg.to_json(v)), fields[0][0]).__self__ is f.__self__)
+      model['inherited_method_keeps_class'] = back.get('ok', False)
     problems = []
     path = '/mem/c05_callable/value.json'
     for form, g in (('obj', lambda: pg.from_json(pg.to_json(v))),
@@ -1727,9 +1911,11 @@ class _Impl:
         continue
       for name, org in fields:
         a, b = pick(v, name), pick(r, name)
-        if behave(a) != behave(b):
-          problems.append('[%s] %s behaves differently after the round trip' % (form, name))
-        elif org in ('module-def', 'class-body-def', 'builtin', 'classmethod') and not (a == b):
+        ba, bb = behave(a), behave(b)
+        if ba != bb:
+          problems.append('[%s] %s behaves differently after the round trip (probe calls: written %s, loaded %s)' % (
+              form, name, json.dumps(ba, default=str)[:160], json.dumps(bb, default=str)[:160]))
+        elif org in ('module-def', 'class-body-def', 'builtin', 'classmethod', 'inherited-classmethod') and not (a == b):
           problems.append('[%s] %s is not the same function' % (form, name))
     return {'problems': problems, 'model': model}
 
@@ -2096,7 +2282,10 @@ class C05(Prop):
       if rng.chance(0.2):
         yield gen_messy_store_case(rng)
       else:
-        yield gen_store_case(rng, rich_records=rng.chance(0.1))
+        case = gen_store_case(rng, rich_records=rng.chance(0.1), objects=rng.chance(0.25))
+        if rng.chance(0.2):
+          case['rel'] = True
+        yield case
     for i in range(300 if quick else 15000):
       yield gen_hstore_case(rng)
     for i in range(300 if quick else 10000):
@@ -2108,11 +2297,16 @@ class C05(Prop):
     for i in range(300 if quick else 12000):
       yield gen_hist_case(rng)
     origins = ['module-def', 'module-lambda', 'class-body-lambda', 'class-body-def', 'nested-def', 'nested-lambda',
-               'builtin', 'classmethod', 'partial']
+               'builtin', 'classmethod', 'partial', 'inherited-classmethod', 'lambda-kwonly-default',
+               'functor-default-unbound', 'functor-default-bound', 'functor-override-args']
     for origin in origins:                       # small and exhaustive: every origin in every position
       for wrap in ('leaf', 'list', 'field'):
         yield {'kind': 'callable', 'origin': origin, 'wrap': wrap}
     yield {'kind': 'callable', 'origin': 'module-lambda', 'wrap': 'default'}
+    for i in range(60 if quick else 2000):
+      yield gen_fnfam_case(rng)
+    for i in range(250 if quick else 12000):
+      yield gen_mounts_case(rng)
     for i in range(200 if quick else 6000):
       what = rng.weighted([(4, 'hyper'), (4, 'dnaspec'), (2, 'diff'), (2, 'functor')])
       if what in ('hyper', 'dnaspec'):
@@ -2177,6 +2371,10 @@ class C05(Prop):
       return im.dyn(case)
     if k == 'callable':
       return im.callable_case(case)
+    if k == 'fnfam':
+      return im.fnfam_case(case)
+    if k == 'mounts':
+      return im.mounts_case(case)
     if k == 'seq':
       return im.seq(case)
     if k == 'hist':
@@ -2196,6 +2394,26 @@ class C05(Prop):
       return req
     if k == 'callable':
       return {'op': 'fn'}
+    if k == 'fnfam':
+      # The JSON of each function as the real writer produced it (code payload numbered by first occurrence).
+      self.setup_impl()
+      im = C05._impl
+      codes, fnjs = {}, []
+      for fam, i in case['members']:
+        f = getattr(im.mod, fam)[i]
+        j = im.attempt(lambda: im.pg.to_json(f))
+        if 'err' in j or not (isinstance(j['ok'], dict) and 'code' in j['ok']):
+          return None
+        fnjs.append({'code': codes.setdefault(j['ok']['code'], len(codes)), 'defaults': list(f.__defaults__ or ())})
+      return {'op': 'fnload', 'fns': fnjs}
+    if k == 'mounts':
+      ops = []
+      for op in lower_ops(case['ops']):
+        if op['k'] == 'save':
+          ops.append({'k': 'save', 'p': op['p'], 'c': json_text_of_tree(op['v']), 'mt': op['mt']})
+        else:
+          ops.append(op)
+      return {'op': 'mounts', 'cfg': 'patched', 'ops': ops}
     if k == 'hist':
       self.setup_impl()
       items = []
@@ -2213,20 +2431,37 @@ class C05(Prop):
         for op in case['ops']:
           if op['k'] == 'add':
             ops.append({'k': 'add', 'p': paths[op['p']], 'm': op['m'], 'r': [json_text_of_tree(v) for v in op['v']]})
+          elif op['k'] == 'add2':
+            ops.append({'k': 'add', 'p': paths[op['p']], 'm': 'a',
+                        'r': [json_text_of_tree(v) for v in interleave(op['v1'], op['v2'])]})
           elif op['k'] == 'mutate':
             ops.append({'k': 'mutate'})
           else:
             ops.append({'k': 'read', 'p': paths[op['p']]})
         return {'op': 'memseq', 'ops': ops}
-      ops = []
+      # line sequences on /mem: the handle-level model (two appenders are two open handles)
+      ops, nh = [], 0
       for op in case['ops']:
         if op['k'] == 'add':
           ops.append({'k': 'seqw', 'p': paths[op['p']], 'm': op['m'], 'r': [json_text_of_tree(v) for v in op['v']]})
+        elif op['k'] == 'add2':
+          q = paths[op['p']]
+          ops.append({'k': 'mkdirs', 'p': os.path.dirname(q)})
+          ops.append({'k': 'hopen', 'p': q, 'm': 'a'})
+          ops.append({'k': 'hopen', 'p': q, 'm': 'a'})
+          for i in range(max(len(op['v1']), len(op['v2']))):
+            if i < len(op['v1']):
+              ops.append({'k': 'hwrite', 'h': nh, 'c': json_text_of_tree(op['v1'][i]) + '\n'})
+            if i < len(op['v2']):
+              ops.append({'k': 'hwrite', 'h': nh + 1, 'c': json_text_of_tree(op['v2'][i]) + '\n'})
+          ops.append({'k': 'hclose', 'h': nh + 1})
+          ops.append({'k': 'hclose', 'h': nh})
+          nh += 2
         elif op['k'] == 'mutate':
           ops.append({'k': 'exists', 'p': paths[0]})
         else:
           ops.append({'k': 'seqr', 'p': paths[op['p']]})
-      return {'op': 'store', 'cfg': 'patched', 'ops': ops}
+      return {'op': 'hstore', 'cfg': HANDLE_MODEL, 'ops': ops}
     if k == 'dyn':
       self.setup_impl()
       im = C05._impl
@@ -2284,7 +2519,7 @@ class C05(Prop):
           return 'serialisation %d of the history: impl=%s model=%s' % (i, json.dumps(x)[:300], json.dumps(y)[:300])
       return None if len(a) == len(b) else 'different number of serialisations'
     if k == 'seq':
-      reads = [o for op, o in zip(case['ops'], model_out['outs']) if op['k'] in ('read', 'read2')]
+      reads = [o for o in model_out['outs'] if isinstance(o, dict) and ('r' in o or 'err' in o)]
       a = impl_out['model']['reads']
       return None if a == reads else 'sequence reads: impl=%s model=%s' % (json.dumps(a)[:300], json.dumps(reads)[:300])
     if k == 'callable':
@@ -2292,7 +2527,8 @@ class C05(Prop):
         return None
       for org, by_code in impl_out['model'].items():
         if model_out.get(org) != by_code:
-          return 'function of origin %s: written by code = %s, model says %s' % (org, by_code, model_out.get(org))
+          return 'function of origin %s: written by code (for a class method: bound class kept) = %s, model says %s' % (
+              org, by_code, model_out.get(org))
       return None
     if k == 'dyn':
       case = {'value': impl_out['wire'], 'kind': 'codec'}
@@ -2322,7 +2558,12 @@ class C05(Prop):
     if k in ('load', 'load_str'):
       a, b = impl_out['model']['rt'], model_out['rt']
       return None if a == b else 'impl=%s model=%s' % (json.dumps(a)[:300], json.dumps(b)[:300])
-    if k in ('store', 'hstore'):
+    if k == 'fnfam':
+      if impl_out.get('model') is None:
+        return None
+      a, b = impl_out['model']['loaded'], model_out['loaded']
+      return None if a == b else 'defaults of the loaded functions: impl=%s model=%s' % (json.dumps(a)[:300], json.dumps(b)[:300])
+    if k in ('store', 'hstore', 'mounts'):
       a, b = impl_out['model']['outs'], model_out['outs']
       if k == 'hstore':
         # Public-API projection: what a handle that predates a later 'w' of its path reads, and
@@ -2382,24 +2623,45 @@ class C05(Prop):
                       i, step['via'], step['opts'], n, what)}
       return None
     if k == 'seq':
-      spec = {}
+      spec, two = {}, set()
       for i, (op, o) in enumerate(zip(case['ops'], out['outs'])):
         err = isinstance(o, dict) and o.get('err')
         if op['k'] == 'add':
           if err:
             return {'signature': 'seq:add-raises', 'what': 'op %d raises %s' % (i, err)}
           spec[op['p']] = (list(spec.get(op['p'], [])) if op['m'] == 'a' else []) + list(op['v'])
+        elif op['k'] == 'add2':
+          if err:
+            return {'signature': 'seq:add-raises', 'what': 'op %d raises %s' % (i, err)}
+          spec[op['p']] = list(spec.get(op['p'], [])) + interleave(op['v1'], op['v2'])
+          two.add(op['p'])
         elif op['k'] in ('read', 'read2'):
+          if op['p'] not in spec:
+            continue          # never written in this history
           want = spec.get(op['p'], [])
-          if err or o['v'] != want:
+          got = None if (err or not isinstance(o['v'], list)) else o['v']
+          if op['p'] in two and got is not None:
+            # the order in which two concurrent appenders' records land is the file system's business
+            canon = lambda rs: sorted(json.dumps(r, sort_keys=True) for r in rs)
+            same = canon(got) == canon(want)
+          else:
+            same = got == want
+          if not same and op['p'] in two and case['backend'] == 'line':
+            return {'signature': 'seq:line:two-appenders-lose-records',
+                    'what': 'op %d: after two appenders were open together %s holds %s, appended %s' % (
+                        i, SEQ_PATHS['line'][op['p']], json.dumps(o)[:200], json.dumps(want)[:200])}
+          if not same:
             return {'signature': 'seq:%s:read-differs-from-appended' % case['backend'],
                     'what': 'op %d (%s on backend %s): read gives %s, appended %s' % (
                         i, op['k'], case['backend'], json.dumps(o)[:200], json.dumps(want)[:200])}
       return None
     if k == 'callable':
       if out['problems']:
+        p0 = out['problems'][0]
         return {'signature': 'callable:%s:%s' % (case['origin'] if case['wrap'] != 'default' else 'field-default',
-                                                  out['problems'][0].split('] ')[-1].split(' raises')[0][:40]),
+                                                  'behaves-differently' if 'behaves differently' in p0 else
+                                                  'not-the-same-function' if 'not the same function' in p0 else
+                                                  p0.split('] ')[-1].split(' raises')[0][:40]),
                 'what': 'callable %s as %s: %s' % (case['origin'], case['wrap'], '; '.join(out['problems']))}
       return None
     if k == 'codec':
@@ -2442,6 +2704,26 @@ class C05(Prop):
       return None
     if k == 'hstore':
       return self.hstore_oracle(case, out['outs'])
+    if k == 'mounts':
+      # Every mount is its own store: what it returns is what ITS operations alone explain.
+      for label, outs in (('mem', out['outs']), ('std', out['std'])):
+        for mt, name in enumerate(MOUNTS):
+          idx = [i for i, op in enumerate(case['ops']) if op.get('mt', 0) == mt]
+          f = self.store_oracle({'kind': 'store', 'ops': [case['ops'][i] for i in idx]}, [outs[i] for i in idx],
+                                '%s, mount %s alone' % (label, name if label == 'mem' else 'AB'[mt]))
+          if f:
+            if f['signature'] not in ('store:record-with-newline', 'store:record-with-cr-on-std-fs'):   # F13d / F13e
+              f['signature'] = 'mounts:' + f['signature']
+            return f
+      return None
+    if k == 'fnfam':
+      if out['problems']:
+        p = out['problems'][0]
+        return {'signature': 'fnfam:' + ('raises' if p.startswith('raises') else 'count' if 'loaded' in p.split(' answers')[0]
+                                         else 'loaded-function-behaves-differently'),
+                'what': 'functions %s sharing code objects, %s: %s' % (json.dumps(case['members']), case['how'],
+                                                                        '; '.join(out['problems'])[:600])}
+      return None
     if k == 'vspec':
       if out.get('to_json_error'):
         return {'signature': 'vspec:to_json-raises:' + out['to_json_error'], 'what': json.dumps(case)[:300]}
@@ -2478,6 +2760,16 @@ class C05(Prop):
     return None
 
   def store_oracle(self, case, outs, label):
+    f = self.store_oracle_(case, outs, label)
+    if f and case.get('rel') and label == 'std' and not f['signature'].startswith('store:bare-file-name'):
+      import re
+      m = re.search(r'op (\d+)', f['what'])
+      if m and norm_path(case['ops'][int(m.group(1))]['p']) == ('mem',):
+        # the bare relative name 'mem': taken for a path with the extension '.mem' (a memory sequence)
+        f['signature'] = 'store:dotless-name-taken-as-extension'
+    return f
+
+  def store_oracle_(self, case, outs, label):
     """Read-your-writes against the abstract store `path key -> content / records`."""
     files = {}
     dirs = {()}
@@ -2496,9 +2788,11 @@ class C05(Prop):
           dirs.add(upto[:n])
       if k == 'write' and err == 'FileNotFoundError' and key[:-1] not in dirs:
         continue      # writefile does not create directories
+      bare = bool(case.get('rel')) and label == 'std' and len(key) == 1 and err == 'FileNotFoundError'
       if k == 'save':
         if err:
-          return {'signature': 'store:save-raises', 'what': '[%s] op %d %s raises %s' % (label, i, op['p'], err)}
+          return {'signature': 'store:bare-file-name:save-raises' if bare else 'store:save-raises',
+                  'what': '[%s] op %d %s raises %s' % (label, i, op['p'][len('/mem/'):] if bare else op['p'], err)}
         files[key] = ('value', op['v'])
       elif k == 'write':
         if err:
@@ -2508,7 +2802,8 @@ class C05(Prop):
         files[key] = ('text', text + op['c'] if op['m'] == 'a' else op['c'])
       elif k == 'seqw':
         if err:
-          return {'signature': 'store:append-raises', 'what': '[%s] op %d %s raises %s' % (label, i, op['p'], err)}
+          return {'signature': 'store:bare-file-name:append-raises' if bare else 'store:append-raises',
+                  'what': '[%s] op %d %s raises %s' % (label, i, op['p'][len('/mem/'):] if bare else op['p'], err)}
         prev = files.get(key)
         old = list(prev[1]) if (prev and prev[0] == 'records' and op['m'] == 'a') else []
         if prev and prev[0] != 'records' and op['m'] == 'a':
@@ -2535,12 +2830,14 @@ class C05(Prop):
         elif prev[0] == 'records':
           if err or o['r'] != prev[1]:
             bad_nl = any('\n' in r for r in prev[1])
-            bad_cr = label == 'std' and any('\r' in r for r in prev[1])
+            bad_cr = label.startswith('std') and any('\r' in r for r in prev[1])
             sig = 'store:record-with-newline' if bad_nl else ('store:record-with-cr-on-std-fs' if bad_cr else 'store:records-mismatch')
             return {'signature': sig,
                     'what': '[%s] op %d: records of %s are %s, appended %s' % (label, i, op['p'], json.dumps(o)[:200], json.dumps(prev[1])[:200])}
           if orig['k'] == 'jr' and jvals.get(key) is not None and o['v'] != {'ok': jvals[key]}:
-            return {'signature': 'store:jsonl-values-mismatch',
+            partial = any(tree_has(v, lambda x: isinstance(x, dict) and 'm' in x) for v in jvals[key])
+            return {'signature': 'store:jsonl-partial-object-unreadable' if partial and 'err' in o['v'] else
+                                 'store:jsonl-values-mismatch',
                     'what': '[%s] op %d: open_jsonl(%s) yields %s, added %s' % (label, i, op['p'], json.dumps(o['v'])[:200], json.dumps(jvals[key])[:200])}
       elif k == 'exists':
         if key in files and o is not True:
@@ -2581,7 +2878,9 @@ class C05(Prop):
           h['closed'] = True
         elif k == 'hwrite':
           if cur and f['c'] is not None:
-            c, pos = f['c'], h['pos']
+            c, pos = f['c'], (len(f['c']) if h.get('append') else h['pos'])
+            if h.get('append') and h['pos'] != len(c):
+              f['stale_append'] = True      # the file grew since this 'a' handle last looked: O_APPEND still writes at the end
             c = c + '\0' * (pos - len(c))
             f['c'] = c[:pos] + op['c'] + c[pos + len(op['c']):]
             h['pos'] = pos + len(op['c'])
@@ -2616,7 +2915,7 @@ class C05(Prop):
         f = files.get(key)
         if f is None:
           return {'signature': 'store:open-of-unwritten', 'what': 'op %d opens %s which was never written' % (i, op['p'])}
-        handles.append({'key': key, 'gen': f['gen'], 'closed': False,
+        handles.append({'key': key, 'gen': f['gen'], 'closed': False, 'append': op['m'] == 'a',
                         'pos': len(f['c'] or '') if op['m'] == 'a' else 0})
       elif k == 'save':
         if err:
@@ -2644,8 +2943,9 @@ class C05(Prop):
           exp = exp[:-1] if exp and exp[-1] == '' else exp
           ok = not err and o.get('r') == exp
         if not ok:
-          sig = 'store:open-handle-shared-position' if open_current(key) else (
-              'store:load-mismatch' if k == 'load' else 'store:records-mismatch')
+          sig = 'store:append-handle-writes-at-stale-end' if f.get('stale_append') else (
+              'store:open-handle-shared-position' if open_current(key) else (
+                  'store:load-mismatch' if k == 'load' else 'store:records-mismatch'))
           return {'signature': sig,
                   'what': 'op %d: %s(%s) gives %s, the file holds %r' % (i, k, op['p'], json.dumps(o)[:200], f['c'][:200])}
       elif k == 'exists':
@@ -2675,6 +2975,16 @@ class C05(Prop):
       return 'extra' in case or case['desc']['k'] in ('list', 'tuple', 'dict', 'union')
     if k in ('dyn', 'callable'):
       return True
+    if k == 'fnfam':
+      return fnfam_ok(case['members'])
+    if k == 'mounts':
+      wrote = set()
+      for op in case['ops']:
+        if op['k'] in ('save', 'write', 'seqw', 'jw'):
+          wrote.add((op['mt'], norm_path(op['p'])))
+        elif op['k'] in ('load', 'seqr', 'jr', 'exists') and (1 - op['mt'], norm_path(op['p'])) in wrote:
+          return True       # the twin of a written path is looked at on the other mount
+      return False
     if k == 'seq':
       return any(op['k'] == 'mutate' or op['k'] == 'read2' for op in case['ops'])
     if k == 'hist':
@@ -2739,6 +3049,14 @@ class C05(Prop):
         h.append('seq:op:%s%s' % (op['k'], ':' + o['err'] if isinstance(o, dict) and o.get('err') else ''))
     elif k == 'callable':
       h.append('callable:%s:%s' % (case['origin'], case['wrap']))
+    elif k == 'fnfam':
+      h.append('fnfam:' + case['how'])
+      h.append('fnfam:members=%d' % len(case['members']))
+      h.append('fnfam:families=%d' % len({f for f, _ in case['members']}))
+    elif k == 'mounts':
+      h.append('mounts:used=%d' % len({op['mt'] for op in case['ops']}))
+      for op, o in zip(case['ops'], out['outs']):
+        h.append('mounts:op:%s:%s%s' % (MOUNTS[op['mt']], op['k'], ':' + o['err'] if isinstance(o, dict) and o.get('err') else ''))
     elif k == 'dyn':
       h.append('dyn:' + case['what'])
       if 'model' in out:
@@ -2764,6 +3082,10 @@ class C05(Prop):
     elif k == 'store':
       h.append('store:%s' % ('messy' if case.get('messy') else 'paths=%d' % len({norm_path(o['p']) for o in case['ops']})))
       h.append('store:ops<=%d' % (4 if len(case['ops']) <= 4 else 8 if len(case['ops']) <= 8 else 12))
+      if case.get('rel'):
+        h.append('store:std-paths-relative-to-cwd')
+      if any(tree_has(v, lambda x: isinstance(x, dict) and 'o' in x) for op in case['ops'] if op['k'] == 'jw' for v in op['v']):
+        h.append('store:jsonl-object-records')
       for op, o in zip(case['ops'], out['outs']):
         h.append('store:op:%s%s' % (op['k'], ':' + o['err'] if isinstance(o, dict) and o.get('err') else ''))
     else:
@@ -2799,7 +3121,13 @@ class C05(Prop):
         c['ops'] = ops[:i] + ops[i + 1:]
         if c['ops']:
           yield c
-    if k == 'store':
+    if k == 'fnfam':
+      ms = case['members']
+      for i in range(len(ms)):
+        c = dict(case, members=ms[:i] + ms[i + 1:])
+        if fnfam_ok(c['members']):      # stays self-contained: replays alike in a fresh process
+          yield c
+    if k in ('store', 'mounts'):
       ops = case['ops']
       for i in range(len(ops)):
         c = dict(case)
